@@ -36,6 +36,9 @@ import surf_common as S
 
 LEVEL = "model_checking"
 DRIVERS = S.DRIVERS
+META = {"text": "Profile.tla (value of a piecewise-constant, possibly periodic profile at a date) and Timeline.tla (progress of running activities integrated over the current availability, failures when a resource goes off) are run by TLC on every generated scenario, with the timeline invariants checked in every state; the real models, driven through Host/Link::set_*_profile, must show the same sampled speeds / bandwidths / latencies / states just before and at every change date and the same finish dates (1e-9). Model-checking level for the specification; the binding to the code holds for the scenarios run.",
+        "note": "Trusted: TLC, the driver (public C++ API), the exact rendering of dyadic numbers. Profile dates are whole ticks of 1/32 s. Ties left open: completion at the very date a resource goes off; two state points at one date are not generated. Three recorded deviations (bandwidth increase not followed by a running communication, latency point ending a latency phase, points of date 0 on C++-built platforms) are re-evaluated under explicit variants of the reference and must match them exactly (the lazy symptom of the latency one is attributed through the Full run of the same scenario).",
+        "technique": "TLC runs the reference timeline with invariants (M) and prints exact states (G) + replay on the real models with a sampler actor (surf_driver) + exact rational/double comparison"}
 
 NETCFG = ["--cfg=network/model:CM02", "--cfg=network/TCP-gamma:0", "--cfg=network/crosstraffic:0"]
 G = F(1, 16)          # date grid
@@ -149,7 +152,7 @@ def mismatches(sc, obs, fin, recs):
 
 
 def run(ctx):
-    n = 40 if ctx.quick else 1500
+    n = 40 if ctx.quick else 400
     import os
     if os.environ.get("SURF_DEV_N"):
         n = int(os.environ["SURF_DEV_N"])
